@@ -317,25 +317,49 @@ def r4(fx):
                         want.append((3, iso.CCI[m][v]))
                     want.append(('extend', 5))
                     yield ob(f'v{v} {m} enc={enc} eci={eci}: header fields', buf.appends == want, fn, got=buf.appends, want=want)
-    # get_eci_assignment_number: table lookup by canonical codec name, KeyError -> ValueError
+    # get_eci_assignment_number: the ISO number of the codec the name denotes (aliases included), ValueError for a codec without number
+    import codecs as _codecs
     ge = fx.fn('encoder', 'get_eci_assignment_number')
-    r = [s for s in ast.walk(ge) if isinstance(s, ast.Return)]
-    rr = single(r, 'return of get_eci_assignment_number')
-    pat.need(rr.value, 'consts.ECI_ASSIGNMENT_NUM[codecs.lookup(encoding).name]', 'ECI number lookup')
-    yield ob('ECI number = ECI_ASSIGNMENT_NUM[canonical codec name of the encoding]', True, rr, got=ast.unparse(rr.value),
-             want='consts.ECI_ASSIGNMENT_NUM[codecs.lookup(encoding).name]')
-    # segment.encoding is the encoding data_to_bytes used; None for non-byte modes
+    gf = FuncVal(ge, encoder_env(fx.forest, it), it)
+    bad = []
+    for name in ('utf-8', 'UTF8', 'utf_8', 'latin1', 'iso-8859-1', 'ISO8859-15', 'iso8859_13', 'shift_jis', 'Shift-JIS', 'sjis', 'cp437', 'cp1252', 'windows-1256',
+                 'ascii', 'us-ascii', 'utf-16-be', 'gb2312', 'big5', 'euc_kr', 'utf-7', 'cp850', 'koi8-r'):
+        canon = _codecs.lookup(name).name
+        want = iso.ECI.get(canon, 'raises ValueError')
+        try:
+            got = gf(name)
+        except PyRaise as ex:
+            got = f'raises {ex.name}'
+        if got != want:
+            bad.append((name, got, want))
+    yield ob('ECI number = ECI_ASSIGNMENT_NUM[canonical codec name of the encoding]', not bad, ge, got=bad[:4] or 'ISO numbers, ValueError otherwise',
+             want='the ECI assignment number of the codec the name denotes; ValueError if it has none')
+    # segment.encoding is the encoding data_to_bytes used; hanzi forces GB 2312 before the conversion
     ms = fx.fn('encoder', 'make_segment')
-    a = [s for s in ms.body if isinstance(s, ast.Assign) and 'data_to_bytes' in ast.unparse(s.value)]
-    aa = single(a, 'data_to_bytes call in make_segment')
-    okd = isinstance(aa.targets[0], ast.Tuple) and len(aa.targets[0].elts) == 3 and \
-        pat.match(aa.value, 'data_to_bytes(data, encoding)') is not None
-    yield ob('make_segment takes (bytes, length, encoding) from data_to_bytes(data, encoding)', okd, aa, got=ast.unparse(aa),
-             want='segment_data, segment_length, segment_encoding = data_to_bytes(data, encoding)')
-    hz = [s for s in ms.body if isinstance(s, ast.If) and nf.same_any(s.test, ('mode == consts.MODE_HANZI',))]
-    okh = len(hz) == 1 and ast.unparse(hz[0].body[0]) == 'encoding = consts.HANZI_ENCODING' and ms.body.index(hz[0]) < ms.body.index(aa)
-    yield ob('hanzi forces the GB2312 codec before conversion', okh, ms, got=[ast.unparse(h)[:80] for h in hz],
-             want='if mode == consts.MODE_HANZI: encoding = consts.HANZI_ENCODING')
+    hz = C(fx, 'HANZI_ENCODING')
+    seen = []
+
+    class _B(bytes):
+        pass
+
+    def d2b(data, encoding):
+        seen.append((data, encoding))
+        return _B(b'\xb0\xa1\xb0\xa2' if encoding == hz else b'\x93\x5f\xe4\xaa'), 4, encoding or '<detected>'
+    genv2 = encoder_env(fx.forest, it, data_to_bytes=d2b)
+    out = []
+    for mode, enc in (('byte', None), ('byte', 'cp1252'), ('hanzi', None), ('hanzi', 'utf-8'), ('kanji', None)):
+        del seen[:]
+        try:
+            seg = FuncVal(ms, genv2, it)('<text>', md[mode], enc)
+            out.append((mode, enc, list(seen), seg.encoding))
+        except PyRaise as ex:
+            out.append((mode, enc, list(seen), f'raises {ex.name}'))
+    want = [('byte', None, [('<text>', None)], '<detected>'), ('byte', 'cp1252', [('<text>', 'cp1252')], 'cp1252'), ('hanzi', None, [('<text>', hz)], None),
+            ('hanzi', 'utf-8', [('<text>', hz)], None), ('kanji', None, [('<text>', None)], None)]
+    yield ob('make_segment takes (bytes, length, encoding) from data_to_bytes(data, encoding)', [o[:3] for o in out if o[0] != 'hanzi'] == [w[:3] for w in want if w[0] != 'hanzi']
+             and [o[3] for o in out] == [w[3] for w in want], ms, got=out, want=want)
+    yield ob('hanzi forces the GB2312 codec before conversion', [o[2] for o in out if o[0] == 'hanzi'] == [w[2] for w in want if w[0] == 'hanzi'], ms,
+             got=[o for o in out if o[0] == 'hanzi'], want=[w for w in want if w[0] == 'hanzi'])
 
 
 @rule('C01', 'R5', 32, 'same-mode parts are merged only at a packing-group boundary; Segments bookkeeping stays consistent')
